@@ -288,6 +288,19 @@ def rule_window_tiling(ctx: Ctx) -> None:
     else:
         ctx.bad("C19.2", "every flush consumes the skip-first-bar flag", flush, flush.node, "self._skip_first_bar is never cleared in _flush: every bar is skipped",
                 key_text="skip flag consumed")
+    # who feeds the aggregator, and with which time: the trade's own timestamp (an event's `when` can be the time the message was
+    # received: bucketing by it moves trades that arrive late into the next window)
+    ci_ = A.call_index(ctx)
+    feeders = ci_.callers_of(f"{cls}.push_trade")
+    ctx.count("C19.2:push_trade call sites", len(feeders))
+    for f_, m_, c_ in feeders:
+        if f_ is None or not c_.args:
+            continue
+        ctx.analysed_funcs.add(f_.qualname)
+        a0 = N.canon(N.expand(f_, c_.args[0]))
+        ctx.check(a0.endswith(".datetime") and ".trade" in a0, "C19.2", "trades are bucketed by their own timestamp", f_, c_, a0,
+                  f"push_trade is given '{a0}' as the trade time, not the trade's own datetime: a trade executed at the end of a window but received after "
+                  "the next one began is counted in the wrong bar", key_text=f"trade time {f_.qualname}")
     # in-order guard of push_trade
     pt = ctx.func(f"{cls}.push_trade")
     cmp_ = [n for n in C.walk_shallow(pt.node) if isinstance(n, ast.Compare) and isinstance(n.ops[0], ast.Lt)
